@@ -333,6 +333,53 @@ func main() {
 				continue
 			}
 			fmt.Fprintf(&sb, "def %s : %s :=\n  %s\n\n", leanIdent(n), sh, render(v))
+			// maps keyed by canonical "a-b-c" integer strings: also emit the keys as integer lists
+			if v.kind == "map" && len(v.keys) > 0 {
+				allInt := true
+				var rows []string
+				for _, k := range v.keys {
+					if k.kind != "str" {
+						allInt = false
+						break
+					}
+					parts := strings.Split(k.s, "-")
+					var nums []string
+					for _, pt := range parts {
+						i, err := strconv.ParseInt(pt, 10, 64)
+						if err != nil || fmt.Sprint(i) != pt {
+							allInt = false
+							break
+						}
+						nums = append(nums, pt)
+					}
+					if !allInt {
+						break
+					}
+					rows = append(rows, "["+strings.Join(nums, ", ")+"]")
+				}
+				if allInt {
+					fmt.Fprintf(&sb, "/-- keys of %s parsed as integers (emitted only when every key re-renders canonically) -/\ndef %s : List (List Int) :=\n  [%s]\n\n", n, leanIdent(n+"_ikeys"), strings.Join(rows, ", "))
+				}
+			}
+			// short string lists: also emit code points (String functions do not reduce in the kernel)
+			if v.kind == "list" && len(v.list) > 0 && len(v.list) <= 70 && v.list[0].kind == "str" {
+				ok := true
+				var rows []string
+				for _, w := range v.list {
+					if w.kind != "str" || len([]rune(w.s)) > 6 {
+						ok = false
+						break
+					}
+					var cps []string
+					for _, r := range w.s {
+						cps = append(cps, fmt.Sprint(int(r)))
+					}
+					rows = append(rows, "["+strings.Join(cps, ", ")+"]")
+				}
+				if ok {
+					fmt.Fprintf(&sb, "def %s : List (List Nat) :=\n  [%s]\n\n", leanIdent(n+"_cp"), strings.Join(rows, ", "))
+				}
+			}
 		}
 		// integer literals of each function, in source order
 		var fnames []string
